@@ -323,7 +323,11 @@ class TTNS(TTNBase):
         if other_attrs is None:
             other_attrs = []
         other_attrs = other_attrs + ["coeff"]
-        return super().load(basis, fname, other_attrs)
+        instance = super().load(basis, fname, other_attrs)
+        # the prefactor is a scalar: left as the 0-d array read from the file it would be shared
+        # (and updated in place) by every state derived from the loaded one
+        instance.coeff = np.asarray(instance.coeff).item()
+        return instance
 
     @classmethod
     def random(cls, basis: BasisTree, qntot, m_max, percent=1.0):
